@@ -65,6 +65,22 @@ func (prop) Generate(rng *rand.Rand, tier string) []corr.Case {
 		ops = append(ops, "extend 2", "restart", "extend 1", "shutdown")
 		cases = append(cases, corr.Case{Ops: ops, Tag: "boot"})
 	}
+	// long runs: many more blocks than the block cache holds / than the BFT window, finality and pruning far
+	// beyond the first hundred blocks, restarts in between
+	cases = append(cases, corr.Case{Tag: "long", Ops: []string{
+		fmt.Sprintf("boot seed=%d nval=3 batch=2 bt=2 cache=9 pool=0 maxtx=0", rng.Intn(1000)), "wiring",
+		"extend 45", "restart", "extend 70", "restart", "extend 30", "shutdown"}})
+	cases = append(cases, corr.Case{Tag: "long", Ops: []string{
+		fmt.Sprintf("boot seed=%d nval=4 batch=3 bt=2 cache=0 pool=0 maxtx=0", rng.Intn(1000)), "wiring",
+		"extend 530", "restart", "extend 25", "shutdown"}})
+	if tier == "thorough" {
+		cases = append(cases, corr.Case{Tag: "long", Ops: []string{
+			fmt.Sprintf("boot seed=%d nval=4 batch=3 bt=2 cache=0 pool=0 maxtx=0", rng.Intn(1000)), "wiring",
+			"extend 530", "restart", "extend 120", "restart", "extend 520", "restart", "extend 3", "shutdown"}})
+		cases = append(cases, corr.Case{Tag: "long", Ops: []string{
+			fmt.Sprintf("boot seed=%d nval=2 batch=4 bt=5 cache=4 pool=0 maxtx=0", rng.Intn(1000)), "wiring",
+			"extend 700", "restart", "extend 700", "restart", "extend 10", "shutdown"}})
+	}
 	return cases
 }
 
